@@ -828,7 +828,7 @@ def build_ann(t, env):
     return TM.build_std(op, t, a)
 
 
-def conv_event(out, t, vars_, ctx, stats):
+def conv_event(out, t, vars_, ctx, stats, solver=False):
     """vars_: [[name, w, tuple-or-None]]"""
     import claripy
     env = {n: var_ast(n, w, si) for n, w, si in vars_}
@@ -846,7 +846,7 @@ def conv_event(out, t, vars_, ctx, stats):
         stats["unsupported"] = stats.get("unsupported", 0) + 1
         return
     ev = {"k": "conv", "op": t[0], "t": t, "vars": vv, "rt": "si", "R": [], "rb": [1, 1], "exc": exc, "how": "convert",
-          "cls": 0, "ctx": ctx}
+          "cls": 0, "ctx": ctx, "sv_on": 0, "sv_eval": [], "sv_mm": [], "sv_exc": ""}
     if not exc:
         kind, payload = value(r)
         if kind == "si":
@@ -860,6 +860,19 @@ def conv_event(out, t, vars_, ctx, stats):
                 ev["exc"] = "ResultType:bool-for-bv"
         else:
             ev["exc"] = "ResultType:" + str(payload if kind == "other" else kind)
+    if solver and not ev["exc"] and ev["rt"] == "si" and TM.width(t) <= 6:
+        # the same expression through the light frontend (SolverVSA): eval / min / max must not exclude a value
+        w = TM.width(t)
+        sv = claripy.SolverVSA()
+        e1, vals = guarded(lambda: sv.eval(ast, (1 << w) + 1))
+        e2, mn = guarded(lambda: sv.min(ast))
+        e3, mx = guarded(lambda: sv.max(ast))
+        if e1 or e2 or e3:
+            ev["sv_exc"] = e1 or e2 or e3
+        else:
+            ev["sv_on"] = 1
+            ev["sv_eval"] = [I(v) for v in vals]
+            ev["sv_mm"] = [I(mn), I(mx)] if mn is not None and mx is not None else []
     rewritten = (not exc) and TM.ser(ast) != t
     out.write(ev, nontrivial_key=[t, vv], outcome=(ev["exc"] or "ok"),
               sample={"t": t, "vars": vv, "rt": ev["rt"], "R": ev["R"], "rb": ev["rb"]})
@@ -967,7 +980,7 @@ def gen_conv(job, out, rng):
                 for t in terms:
                     if "y" not in TM.free_vars(t) and ib != 0:
                         continue        # single-variable shapes once per x
-                    conv_event(out, t, [["x", W, sx], ["y", W, sy]], "d1", stats)
+                    conv_event(out, t, [["x", W, sx], ["y", W, sy]], "d1", stats, solver=True)
     else:
         sound = job.get("ops") == "sound"
         ctx = "rand-sound" if sound else "cat"
